@@ -129,13 +129,18 @@ SensCarrier(route, name, cfg) ==
       [] OTHER                     -> Sensitive(name, cfg)
 (* sinks that show the field of a route when nothing is redacted: request data is shown by the failure report (console curl sample,
    JUnit message) and by both cassettes, response headers only by the cassettes; the console proper shows the base URL *)
-MustCarry(route, sink) ==
+\* headers the reproduction command leaves out for readability (transport defaults): user-agent accept accept-encoding connection content-length transfer-encoding
+ReproOmits == {<<117, 115, 101, 114, 45, 97, 103, 101, 110, 116>>, <<97, 99, 99, 101, 112, 116>>,
+               <<97, 99, 99, 101, 112, 116, 45, 101, 110, 99, 111, 100, 105, 110, 103>>, <<99, 111, 110, 110, 101, 99, 116, 105, 111, 110>>,
+               <<99, 111, 110, 116, 101, 110, 116, 45, 108, 101, 110, 103, 116, 104>>, <<116, 114, 97, 110, 115, 102, 101, 114, 45, 101, 110, 99, 111, 100, 105, 110, 103>>}
+MustCarry(route, sink, name) ==
     IF route \in {"resp-set-cookie", "resp-header"} THEN sink \in {"vcr", "har"}
     ELSE IF route = "url-userinfo" THEN TRUE
+    ELSE IF route \in {"user-header", "gen-header"} /\ Lower(name) \in ReproOmits THEN sink \in {"vcr", "har"}
     ELSE sink \in {"curl", "junit", "vcr", "har"}
 Expected(route, sink, name, sanitize, cfg) ==
     IF sanitize /\ SensCarrier(route, name, cfg) THEN "absent"
-    ELSE IF MustCarry(route, sink) THEN "present" ELSE "U"
+    ELSE IF MustCarry(route, sink, name) THEN "present" ELSE "U"
 
 ---------------------------------------------------------------------------
 (* the enumerated family: (name, cfg) pairs, then the route x sink x sanitize x cfg matrix for every name *)
